@@ -92,7 +92,11 @@ def generate_povm_object(
     is_physicality_required: bool = True,
 ):
     return generate_povm_object_from_povm_name_object_name(
-        povm_name, object_name, c_sys, is_physicality_required=is_physicality_required
+        povm_name,
+        object_name,
+        c_sys,
+        basis=c_sys.basis() if c_sys is not None else None,
+        is_physicality_required=is_physicality_required,
     )
 
 
